@@ -183,6 +183,8 @@ pub struct Ctx {
     nontrivial_marked: bool,
     /// fall-backs logged by the formatter during the current (sub-)case
     pub fb: Fallbacks,
+    /// the text (configuration, cursors) handed to the formatter last: what a panic is blamed on
+    pub last: Option<(Cfg, String, Vec<u32>)>,
 }
 
 impl Ctx {
@@ -195,6 +197,7 @@ impl Ctx {
             stats: Stats::default(),
             nontrivial_marked: false,
             fb: Fallbacks::default(),
+            last: None,
         }
     }
     pub fn formatter(&mut self, cfg: &Cfg) -> &Formatter {
@@ -202,6 +205,15 @@ impl Ctx {
     }
     pub fn fmt(&mut self, cfg: &Cfg, input: &str) -> String {
         self.stats.formats += 1;
+        match &mut self.last {
+            Some((c, s, cur)) => {
+                *c = *cfg;
+                s.clear();
+                s.push_str(input);
+                cur.clear();
+            }
+            None => self.last = Some((*cfg, input.to_string(), vec![])),
+        }
         let out = self.formatter(cfg).format(input, FileOptions::new());
         let f = take_fallbacks();
         self.fb.no_solution += f.no_solution;
@@ -222,6 +234,7 @@ impl Ctx {
     }
     pub fn fmt_cursors(&mut self, cfg: &Cfg, input: &str, cursors: &mut [Cursor]) -> String {
         self.stats.formats += 1;
+        self.last = Some((*cfg, input.to_string(), cursors.iter().map(|c| c.0).collect()));
         self.formatter(cfg)
             .format(input, FileOptions::new().with_cursors(cursors))
     }
@@ -283,6 +296,7 @@ impl Ctx {
     }
     fn begin_case(&mut self, idx: u64) {
         self.idx = idx;
+        self.last = None;
         self.nontrivial_marked = false;
         self.fb = Fallbacks::default();
         let _ = take_fallbacks();
@@ -388,7 +402,11 @@ pub fn worker_main(family: &dyn Family, a: WorkerArgs) -> ! {
             PAUSED.store(false, Ordering::Relaxed);
             ctx.begin_case(idx);
             if let Err(site) = guarded(|| family.run(idx, &mut ctx)) {
-                let case = family.describe(idx);
+                // blame the text that was being formatted (a case may bundle many texts)
+                let case = match ctx.last.take() {
+                    Some((c, text, cursors)) => json!({"oracle": "c04", "input": text, "cfg": c, "cursor_list": cursors, "of_case": idx}),
+                    None => family.describe(idx),
+                };
                 ctx.undecided("panic", site, case);
             }
         }
